@@ -104,11 +104,14 @@ Definition page_project_url (relative : bool) (setting : str) (out page : list s
 Definition has_slash (x : str) : bool := existsb (ch_eqb slash) x.
 
 (* ford.output.relative_url(entity, page_url) for str(entity) = pre ++ href ++ post, where href is the
-   first <a href> of the text when [has_link], and the whole text otherwise (pre = post = []).
+   href of the first <a> element that HAS an href when [has_link], and the whole text otherwise
+   (pre = post = []).  [dead_only]: the text contains <a> elements but none with an href (unresolved
+   [[references]]): it is returned unchanged.
    href and page are absolute path names (or href starts with "http"). *)
-Definition relative_url_str (pre href post : str) (has_link : bool) (page : str) : str :=
+Definition relative_url_str (pre href post : str) (has_link dead_only : bool) (page : str) : str :=
   let whole := pre ++ href ++ post in
   if negb (has_slash whole) then whole
+  else if dead_only then whole
   else if has_link && starts_with (s "http") href then whole
   else
     let link_path := if has_link then normpath_str href else whole in
